@@ -7,12 +7,14 @@ and, for the unbalanced slave, history theorems over every stream of requests wi
 (`secU_stream_exactly_once`, `secU_repetitions_invisible`, `secU_repeated_response_identical`; balanced station:
 `bal_stream_exactly_once`): the station refines
 the specification `Iec.Link101.View.stream` (`Lemmas/Link101Hist.lean`, `runStream_refines`).  Unbalanced master, every history of one slave
-connection: `master_fcb_discipline` (`Lemmas/Link101Fcb.lean`).
+connection: `master_fcb_discipline` (`Lemmas/Link101Fcb.lean`); balanced station, every history: `balanced_fcb_discipline`
+(`Lemmas/Link101FcbBal.lean`).
 -/
 import Iec.Model.Link101
 import Iec.Lemmas.Link101Hist
 import Iec.Lemmas.Link101BalHist
 import Iec.Lemmas.Link101Fcb
+import Iec.Lemmas.Link101FcbBal
 namespace Iec.Props.C15
 open Iec.Link101
 
@@ -359,6 +361,16 @@ def fcbDemoLL : LL := { p := ⟨1, 200, 1000, false, 500, by omega⟩, address :
 example : (FOp.runAll ({ address := 5 }, fcbDemoLL) [.run 0, .handle 10 11 false false 5 0 0, .handle 20 0 false false 5 0 0,
       .run 30, .req1, .run 40, .handle 50 9 false false 5 0 0, .req2, .run 60]).filterMap
       (fun o => match o with | .tx f => some (ctrlOf f.bytes) | _ => none) = [0x49, 0x40, 0x7a, 0x5b] := by decide
+
+/-- **frame count bit of the balanced station's primary part, over every history.** For a balanced station as
+`LinkLayerBalanced_create` makes it and ANY sequence of primary state-machine runs, frames handled by its primary part (any
+function code, DFC), frames handled by its secondary part (which writes acknowledgements and status frames with PRM = 0),
+user data queued by the application (that fits a frame) and link-test requests: among the frames it writes with PRM = 1,
+the first FCV frame after a RESET REMOTE LINK carries FCB = 1 and every further one toggles the bit or is octet for octet
+the FCV frame before it; the frames of the secondary part are not concerned and never disturb the count. -/
+theorem balanced_fcb_discipline (l : LL) (other : Nat) (ops : List BOp) :
+    ∃ last, trackAllB none (BOp.runAll { ll := l, other := other } ops) = some last :=
+  runAllB_fcb ops { ll := l, other := other } none (JB_init l other)
 
 end Iec.Props.C15
 
